@@ -642,6 +642,16 @@ func solveReport(rep *FnReport, opts solveOpts) {
 				o.Result = r
 				return
 			}
+			if r.Status != "unsat" && len(o.Hints) > 0 {
+				// second encoding: allocation takes the next unused address
+				h := *o
+				h.Assumes = append(append([]Term(nil), o.Assumes...), o.Hints...)
+				if r2 := Solve(fx.buildQuery(&h, extra), to, false); r2.Status == "unsat" {
+					r2.Solver += "+dense"
+					r2.Time += r.Time
+					r = r2
+				}
+			}
 			if r.Status == "sat" && opts.models {
 				r2 := Solve(q, opts.timeout, true)
 				if r2.Status == "sat" {
